@@ -775,14 +775,52 @@ def _ssa_nested(block: list, whole: list, params: Set[str], counts: Dict[str, in
             top_defs[a[0]] = top_defs.get(a[0], 0) + 1
     cands = {x for x, k in top_defs.items() if k >= 2 and counts.get(x, 0) == k and x not in params}
     # x = f(x) once in this block, x bound once more outside it, and x not used after the block: a new version local to the block
-    last_line = max((getattr(n, "lineno", 0) for s in block for n in ast.walk(s)), default=0)
+    def loads_after_block(x):
+        """is x read in the function after this block (textually, in statement order)?  Line numbers are useless after inlining."""
+        state = {"seen": False, "hit": False}
+
+        def walk_list(lst):
+            here = lst is block
+            for st in lst:
+                if state["seen"] and not here and not state["in_block"]:
+                    if any(isinstance(n, ast.Name) and n.id == x and isinstance(n.ctx, ast.Load) for n in _own_nodes(st)):
+                        state["hit"] = True
+                for f in ("body", "orelse", "finalbody"):
+                    b = getattr(st, f, None)
+                    if isinstance(b, list) and b and isinstance(b[0], ast.stmt) and not isinstance(st, (ast.FunctionDef, ast.AsyncFunctionDef, ast.ClassDef)):
+                        was = state["in_block"]
+                        if b is block:
+                            state["in_block"] = True
+                        walk_list(b)
+                        if b is block:
+                            state["in_block"] = was
+                            state["seen"] = True
+            if here:
+                state["seen"] = True
+        state["in_block"] = False
+        walk_list(whole)
+        return state["hit"] or not state["seen"]
+
+    def _own_nodes(st):
+        """nodes of a statement excluding nested statement lists"""
+        stack = [st]
+        while stack:
+            n = stack.pop()
+            yield n
+            for f, v in ast.iter_fields(n):
+                if f in ("body", "orelse", "finalbody", "handlers") and isinstance(v, list) and v and isinstance(v[0], (ast.stmt, ast.ExceptHandler)):
+                    continue
+                if isinstance(v, ast.AST):
+                    stack.append(v)
+                elif isinstance(v, list):
+                    stack.extend(x_ for x_ in v if isinstance(x_, ast.AST))
+    last_line = 1
     out_ = []
     renamed = False
     for idx, s in enumerate(block):
         a = _single_assign([s])
         if (a is not None and a[0] not in cands and a[0] not in params and top_defs.get(a[0]) == 1 and counts.get(a[0], 0) == 2
-                and a[0] in names_loaded(a[1]) and last_line
-                and not any(isinstance(n, ast.Name) and n.id == a[0] and getattr(n, "lineno", 0) > last_line for t in whole for n in ast.walk(t))):
+                and a[0] in names_loaded(a[1]) and not loads_after_block(a[0])):
             new = f"{a[0]}__b{idx}"
             counts[a[0]] = counts.get(a[0], 0) - 1
             counts[new] = 1
@@ -832,7 +870,7 @@ def _ssa_nested(block: list, whole: list, params: Set[str], counts: Dict[str, in
     return out
 
 
-def forward_subst(stmts: list, keep: Set[str], params: Set[str], _top=True, _counts=None) -> list:
+def forward_subst(stmts: list, keep: Set[str], params: Set[str], _top=True, _counts=None, _whole=None) -> list:
     """N4 on the top-level statement list of a function: drop `x = e` when x is bound exactly once in the whole function (not a
     parameter, not in `keep`) and substitute e for x in what follows."""
     whole = ast.Module(body=stmts, type_ignores=[])
@@ -884,13 +922,15 @@ def forward_subst(stmts: list, keep: Set[str], params: Set[str], _top=True, _cou
             break
     # nested blocks: single-assignment locals introduced inside an if / for / with body
     if _top:
+        whole_fn = out if _whole is None else _whole
+
         def rec(block):
             for s in block:
                 for f in ("body", "orelse", "finalbody"):
                     b = getattr(s, f, None)
                     if isinstance(b, list) and b and isinstance(b[0], ast.stmt) and not isinstance(s, (ast.FunctionDef, ast.AsyncFunctionDef, ast.ClassDef)):
-                        b = _ssa_nested(b, out, params, counts)
-                        nb = forward_subst(b, keep, params, _top=False, _counts=counts)
+                        b = _ssa_nested(b, whole_fn, params, counts)
+                        nb = forward_subst(b, keep, params, _top=False, _counts=counts, _whole=whole_fn)
                         setattr(s, f, nb or [ast.Pass()])
                         rec(getattr(s, f))
         rec(out)
